@@ -61,7 +61,8 @@ def parse_blocks(out):
     return blocks
 
 def run_file(ctx, exe, path, timeout=1500, args=()):
-    rc, out, err = fw.sh([exe] + list(args) + [path], timeout=timeout, env=ENV)
+    # the extracted model is not tail recursive (firstn / skipn / app over the whole file): give it the stack it needs
+    rc, out, err = fw.sh(["bash", "-c", 'ulimit -s unlimited 2>/dev/null || ulimit -s 4000000; exec "$0" "$@"', exe] + list(args) + [path], timeout=timeout, env=ENV)
     return parse_blocks(out), rc, err
 
 def write_cases(ctx, tag, text):
@@ -529,8 +530,10 @@ def check_C06(ctx):
                                                       "script": iogen.write_case_text(d, cid)[:3000]}})
                 # model-side round trips on the real writer's observation (decode_impl (encode m) = m, decode_spec (encode m) = m)
                 wf = any(l == "wf=1" for l in ml)
+                if wf and not any(l == "small=1" for l in ml):
+                    ctx.broken.append({"kind": "correspondence", "name": "encode of a well-formed observed mesh is not a byte string (hypothesis of C18_prefix)", "detail": {"case": cid}})
                 for l in ml:
-                    if (l.startswith("model_rt=") or l.startswith("spec_rt=")) and not l.endswith("=ok") and wf:
+                    if (l.startswith("model_rt=") or l.startswith("spec_rt=")) and not l.endswith("=ok") and not l.endswith("=skipped") and wf:
                         ctx.broken.append({"kind": "correspondence", "name": "model round trip on an observed mesh (%s)" % l, "detail": {"case": cid}})
             ctx.log("write tie: %d meshes, %d differ" % (len(ms + extra), nd))
     # (ii) reader tie on writer-layout files + permitted re-encodings read to the same mesh
@@ -545,9 +548,10 @@ def check_C06(ctx):
         for (m, c, bu) in confs:
             degenerate = d.name in ("degenerate", "digons", "edges") or d.name.startswith(("ne", "nf", "val"))
             if c == 1 and degenerate: continue
-            cid = cases.add("base:%s" % d.name, b, mesh=m, check=c, bu=bu, api="path" if (c, bu) == (1, 1) else "stream", spec=1 if (m, c, bu) == (confs[0][0], 0, 0) else 0)
+            cid = cases.add("base:%s" % d.name, b, mesh=m, check=c, bu=bu, api="path" if (c, bu) == (1, 1) else "stream",
+                            spec=1 if (m, c, bu) == (confs[0][0], 0, 0) and len(b) <= 20000 else 0)
             if (m, c, bu) == (confs[0][0], 0, 0): base = cid
-        if len(b) > 6000 and quick: continue
+        if len(b) > (6000 if quick else 20000): continue
         for (lab, data, opt) in iogen.reencodings(rng, d):
             for (m, c) in ((confs[0][0], 0), (confs[-1][0], 0)):
                 cases.add("reenc:%s:%s" % (d.name, lab), data, mesh=m, check=c, bu=rng.below(2), expect="same", base=base, spec=1 if m == confs[0][0] else 0)
